@@ -149,11 +149,11 @@ def r3(ctx):
 
 def r4(ctx):
     sub = type(ctx)(ctx.prop, ctx.tier, ctx.facts, ctx.cfg)
-    for fn in (C02.r1, C02.r2, C02.r3, C02.r4, C02.r5):
+    for fn in (C02.r1, C02.r2, C02.r3, C02.r4, C02.r5, C02.r10):
         fn(sub)
     for o in sub.obligations:
         o = dict(o)
-        o["key"] = re.sub(r"^C02\.R(\d)[ab]?", "C01.R4", o["key"])
+        o["key"] = re.sub(r"^C02\.R(\d+)[ab]?", "C01.R4", o["key"])
         o["rule"] = "C01.R4"
         ctx.obligations.append(o)
         if o["status"] != "holds":
